@@ -73,6 +73,11 @@ pub fn run_trace(prop: &str, trace: &Trace, stats: &mut Stats) -> Result<(), Vio
                 } else {
                     "panic"
                 };
+                if prop == "C20" && tag == "panic" {
+                    // C20: an ordinary panic is an allowed failure form
+                    stats.hit("allowed-panic-in-explorer");
+                    return Ok(());
+                }
                 Err(Violation::new(prop, tag, op, msg))
             }
         }
@@ -106,7 +111,8 @@ pub fn worker(prop: &str, seed: u64, from: u64, to: u64, thorough: bool, progres
         };
         out.runs += 1;
         let n_ops = worlds::ops_len(&trace);
-        if n_ops >= 2 {
+        if n_ops >= 2 && out.stats.nontrivial.len() < 150_000 {
+            // (capped per worker: distinct_nontrivial is then a conservative under-count)
             out.stats.nontrivial.insert(trace_hash(&trace));
         }
         if out.samples.len() < 2 && n_ops >= 3 && n_ops <= 14 {
@@ -417,6 +423,81 @@ pub fn replay(path: &Path) -> i32 {
     }
 }
 
+
+/// Thorough tier of C20: the same worker under Miri (no child processes inside Miri; the
+/// index ranges are distributed over several `cargo miri run` processes).
+pub fn miri_tier(prop: &str, seed: u64, from: u64, runs: u64, jobs: usize) -> (u64, Vec<(u64, String)>, Vec<String>) {
+    let sim_dir = verif_root().join("sim");
+    let chunk = ((runs + jobs as u64 - 1) / jobs as u64).max(1);
+    // build once (sequentially) so that the parallel runs do not fight over the build lock
+    let build = Command::new("cargo")
+        .args(["+nightly", "miri", "run", "--offline", "--", "worker", prop, &seed.to_string(), "0", "0", "quick"])
+        .current_dir(&sim_dir)
+        .env("MIRIFLAGS", "-Zmiri-disable-isolation")
+        .env("CARGO_NET_OFFLINE", "true")
+        .output();
+    let mut errors = Vec::new();
+    match build {
+        Ok(o) if o.status.success() => {}
+        Ok(o) => {
+            errors.push(format!("miri build/run failed: {}", String::from_utf8_lossy(&o.stderr).lines().rev().take(5).collect::<Vec<_>>().join(" | ")));
+            return (0, Vec::new(), errors);
+        }
+        Err(e) => {
+            errors.push(format!("cannot start cargo miri: {}", e));
+            return (0, Vec::new(), errors);
+        }
+    }
+    let mut children = Vec::new();
+    let mut a = from;
+    while a < from + runs {
+        let b = (a + chunk).min(from + runs);
+        let child = Command::new("cargo")
+            .args(["+nightly", "miri", "run", "--offline", "--", "worker", prop, &seed.to_string(), &a.to_string(), &b.to_string(), "quick", "progress"])
+            .current_dir(&sim_dir)
+            .env("MIRIFLAGS", "-Zmiri-disable-isolation")
+            .env("CARGO_NET_OFFLINE", "true")
+            .stdout(Stdio::piped())
+            .stderr(Stdio::piped())
+            .spawn();
+        match child {
+            Ok(c) => children.push((a, b, c)),
+            Err(e) => errors.push(format!("cannot start cargo miri: {}", e)),
+        }
+        a = b;
+    }
+    let mut done = 0u64;
+    let mut ub = Vec::new();
+    for (a, b, c) in children {
+        let o = match c.wait_with_output() {
+            Ok(o) => o,
+            Err(e) => {
+                errors.push(format!("miri wait: {}", e));
+                continue;
+            }
+        };
+        let out = String::from_utf8_lossy(&o.stdout);
+        let err = String::from_utf8_lossy(&o.stderr);
+        let last = out.lines().filter_map(|l| l.strip_prefix("PROGRESS ")).filter_map(|s| s.trim().parse::<u64>().ok()).last();
+        if o.status.success() && out.contains("RESULT ") {
+            done += b - a;
+            // ordinary violations found by the worker are reported by the native tier already
+        } else if err.contains("Undefined Behavior") || err.contains("error: unsupported operation") == false && !o.status.success() {
+            let msg = err.lines().find(|l| l.contains("Undefined Behavior") || l.starts_with("error")).unwrap_or("miri reported an error").to_string();
+            match last {
+                Some(i) => {
+                    done += i - a;
+                    ub.push((i, msg));
+                }
+                None => errors.push(format!("miri failed before the first run of {}..{}: {}", a, b, msg)),
+            }
+        } else {
+            errors.push(format!("miri run {}..{} failed: {}", a, b, err.lines().rev().take(3).collect::<Vec<_>>().join(" | ")));
+        }
+    }
+    (done, ub, errors)
+}
+
 // ---------------------------------------------------------------------------------------
 // known findings
 
@@ -461,6 +542,7 @@ pub struct CheckOpts {
     pub runs: u64,
     pub jobs: usize,
     pub level: String,
+    pub miri_runs: u64,
 }
 
 pub fn check(opts: &CheckOpts) -> i32 {
@@ -576,11 +658,46 @@ pub fn check(opts: &CheckOpts) -> i32 {
         reported += 1;
         exit = exit.max(1);
     }
+    let mut miri_runs = 0u64;
+    if opts.miri_runs > 0 {
+        println!("simcheck: Miri tier: {} runs under cargo +nightly miri ...", opts.miri_runs);
+        let (done, ub, errs) = miri_tier(prop, opts.seed, 0, opts.miri_runs, opts.jobs);
+        miri_runs = done;
+        for e in errs.iter().take(3) {
+            eprintln!("HARNESS-ERROR: {}", e);
+            exit = exit.max(2);
+        }
+        for (i, msg) in ub.iter() {
+            let rs = run_seed(opts.seed, prop, *i);
+            let trace = worlds::generate(prop, rs, *i, false);
+            let v = Violation::new(prop, "miri-undefined-behaviour", 0, msg.clone());
+            if let Some(k) = matches_known(&known, prop, &v, &trace) {
+                *known_hits.entry(k.what.clone()).or_insert(0) += 1;
+                continue;
+            }
+            unknown_violations += 1;
+            let rf = ReplayFile {
+                property: prop.to_string(),
+                verif_seed: opts.seed,
+                run_index: *i,
+                tier: "thorough-miri".into(),
+                class: v.class(),
+                violation: v.clone(),
+                minimised: false,
+                original_ops: worlds::ops_len(&trace),
+                trace,
+            };
+            let path = write_replay(&rf);
+            println!("violation class {} (run {}): {}", v.class(), i, msg);
+            println!("VIOLATION property={} replay={}", prop, path.display());
+            exit = if exit == 2 { 2 } else { 1 };
+        }
+    }
     for (what, n) in known_hits.iter() {
         println!("KNOWN-FINDING: property={} {} (matched {} run(s))", prop, what, n);
     }
     let wall = t0.elapsed().as_secs_f64();
-    write_evidence(opts, &res, unknown_violations, &known_hits, wall);
+    write_evidence(opts, &res, unknown_violations, &known_hits, wall, miri_runs);
     println!(
         "simcheck: property={} runs={} distinct_nontrivial={} states={} violations={} wall={:.1}s runs/hour={:.0}",
         prop,
@@ -594,7 +711,7 @@ pub fn check(opts: &CheckOpts) -> i32 {
     exit
 }
 
-fn write_evidence(opts: &CheckOpts, res: &BatchResult, violations: u64, known_hits: &BTreeMap<String, u64>, wall: f64) {
+fn write_evidence(opts: &CheckOpts, res: &BatchResult, violations: u64, known_hits: &BTreeMap<String, u64>, wall: f64, miri_runs: u64) {
     let st = &res.out.stats;
     let faults: BTreeMap<&String, &u64> = st.counters.iter().filter(|(k, _)| k.starts_with("fault-")).collect();
     let probes: BTreeMap<&String, &u64> = st.counters.iter().filter(|(k, _)| k.starts_with("probe-")).collect();
@@ -628,6 +745,7 @@ fn write_evidence(opts: &CheckOpts, res: &BatchResult, violations: u64, known_hi
             "stub_components": meta.stubs,
             "known_findings_matched": known_hits,
             "worker_deaths": res.deaths.len(),
+            "miri_runs": miri_runs,
             "build_profile": "opt-level=2, debug-assertions=on, overflow-checks=on (std unsafe-precondition checks active inside constriction's generic code)"
         },
         "assumptions": meta.assumptions,
